@@ -20,6 +20,9 @@
     (`_noflood_by_default = False`): for every switch in the tree that has a connection, every port below `OFPP_MAX`
     gets `flood = port in tree_ports or is_edge_port`; a `port_mod` is sent only when `_prev` differs.
 * `updateTreeF`                          — the same when a `con.send` raises (`except: _prev.clear()`, :225-227)
+* `updateTreeOf`, `updateTreeFOf`         — the same with the result of `_calc_spanning_tree()` handed in (the tree as a parameter)
+* `Spec.validForest`, `Spec.verdict`     — what the property states of a tree, whichever forest is chosen (executable); `Spec.pairUp`,
+    `Spec.floodTree`: the implementation's tree read off the returned dict / off the NO_FLOOD bits on the switches
 Core only; structural recursion only. -/
 namespace Pox.STree
 
@@ -307,5 +310,118 @@ def updateTreeF (all : Bool) (adj : List Link) (order : List Nat) (conns : Conns
     match failAt with
     | some k => if k < r.2.length then .ok ([], r.2.take k) else .ok r
     | none => .ok r
+
+/-! ### the tree as a parameter
+
+`_update_tree()` uses nothing of `_calc_spanning_tree()` but its result.  `updateTreeOf` is `updateTree` with that result handed
+in (`updateTree_isOf`: `updateTree` is `updateTreeOf` at the tree of the modelled code).  The correspondence run hands in the tree the
+IMPLEMENTATION chose — after `Spec.validForest` has accepted it — so that everything that follows from the choice (which ports flood,
+the port_mods in order, `_prev`) is compared exactly while the choice itself is only required to be one the property allows. -/
+
+def updateTreeOf (all : Bool) (adj : List Link) (tr : Except String (List TEdge)) (conns : Conns) (pv : Prev) :
+    Except String (Prev × List PortMod) :=
+  match tr with
+  | .error e => .error e
+  | .ok t => .ok (swLoop adj t conns (visited all t conns) (pv, []))
+
+theorem updateTree_isOf (all : Bool) (adj : List Link) (order : List Nat) (conns : Conns) (pv : Prev) :
+    updateTree all adj order conns pv = updateTreeOf all adj (calcTreeL adj order) conns pv := rfl
+
+def updateTreeFOf (all : Bool) (adj : List Link) (tr : Except String (List TEdge)) (conns : Conns) (pv : Prev) (failAt : Option Nat) :
+    Except String (Prev × List PortMod) :=
+  match updateTreeOf all adj tr conns pv with
+  | .error e => .error e
+  | .ok r =>
+    match failAt with
+    | some k => if k < r.2.length then .ok ([], r.2.take k) else .ok r
+    | none => .ok r
+
+theorem updateTreeF_isOf (all : Bool) (adj : List Link) (order : List Nat) (conns : Conns) (pv : Prev) (failAt : Option Nat) :
+    updateTreeF all adj order conns pv failAt = updateTreeFOf all adj (calcTreeL adj order) conns pv failAt := rfl
+
+/-! ### what the property states of the tree, whichever forest is chosen (executable)
+
+`Spec.validForest adj t`: every edge of `t` joins two different switches and is, with the two ports recorded for it, ONE link that
+is in the adjacency in both directions (`linksOK`); the edges form a forest (`acyclic`: they can be taken away one by one, each time
+an edge one of whose ends no other edge touches); and the two switches of every bidirectional link are joined by tree edges
+(`spans`; with `linksOK` the tree then connects exactly what the bidirectional links connect).  `Properties/C19.model_tree_valid`:
+the tree of the modelled `_calc_spanning_tree` satisfies it for every adjacency without self-links. -/
+namespace Spec
+
+def edgesOf (t : List TEdge) : List (Nat × Nat) := t.map fun e => (e.v, e.w)
+
+def linksOK (adj : List Link) (t : List TEdge) : Bool :=
+  t.all fun e => decide (e.v ≠ e.w) && decide ((⟨e.v, e.pv, e.w, e.pw⟩ : Link) ∈ adj) && decide ((⟨e.w, e.pw, e.v, e.pv⟩ : Link) ∈ adj)
+
+/-- no edge of `rest` has `x` as an end -/
+def untouched (x : Nat) (rest : List (Nat × Nat)) : Bool := rest.all fun f => decide (f.1 ≠ x) && decide (f.2 ≠ x)
+
+/-- `e` hangs on the other edges `rest` by at most one of its ends -/
+def isLeafEdge (e : Nat × Nat) (rest : List (Nat × Nat)) : Bool := decide (e.1 ≠ e.2) && (untouched e.2 rest || untouched e.1 rest)
+
+/-- take the first leaf edge of `pre ++ r` that is in `r` away -/
+def removeLeaf : List (Nat × Nat) → List (Nat × Nat) → Option (List (Nat × Nat))
+  | _, [] => none
+  | pre, e :: r => if isLeafEdge e (pre ++ r) then some (pre ++ r) else removeLeaf (pre ++ [e]) r
+
+def peel : Nat → List (Nat × Nat) → Bool
+  | 0, es => es.isEmpty
+  | n+1, es => if es.isEmpty then true else
+    match removeLeaf [] es with
+    | none => false
+    | some es' => peel n es'
+
+/-- a finite graph is a forest iff taking leaf edges away, in any order, uses it up -/
+def acyclic (es : List (Nat × Nat)) : Bool := peel es.length es
+
+/-- component names: every switch starts as its own; `(l2, l1)` renames component `l2` to `l1` -/
+def applySubs : List (Nat × Nat) → Nat → Nat
+  | [], l => l
+  | s :: r, l => applySubs r (if l = s.1 then s.2 else l)
+
+/-- the edge `e` merges the component of `e.2` into that of `e.1` -/
+def addEdge (subs : List (Nat × Nat)) (e : Nat × Nat) : List (Nat × Nat) := subs ++ [(applySubs subs e.2, applySubs subs e.1)]
+
+def subsOf (es : List (Nat × Nat)) : List (Nat × Nat) := es.foldl addEdge []
+
+/-- `a` and `b` are joined by edges of `es` -/
+def sameComp (es : List (Nat × Nat)) (a b : Nat) : Bool := decide (applySubs (subsOf es) a = applySubs (subsOf es) b)
+
+def spans (adj : List Link) (t : List TEdge) : Bool :=
+  adj.all fun l => !(decide (l.flip ∈ adj)) || sameComp (edgesOf t) l.dpid1 l.dpid2
+
+def validForest (adj : List Link) (t : List TEdge) : Bool := linksOK adj t && acyclic (edgesOf t) && spans adj t
+
+/-- which clause fails first -/
+def verdict (adj : List Link) (t : List TEdge) : String :=
+  if !linksOK adj t then "edge-not-a-bidirectional-link"
+  else if !acyclic (edgesOf t) then "cycle"
+  else if !spans adj t then "not-spanning"
+  else "ok"
+
+/-- the returned dict `sw ↦ {(w, p)}` flattened to entries `(sw, w, p)`, read back as edges with both ports: the entry `(v, w, pv)`
+    with `v < w` and THE entry `(w, v, pw)` are one edge; an entry without exactly one reverse entry is refused -/
+def pairUp (ents : List (Nat × Nat × Nat)) : Except String (List TEdge) :=
+  let fwd := ents.filter fun e => decide (e.1 < e.2.1)
+  let bwd := ents.filter fun e => decide (e.2.1 < e.1)
+  if fwd.length + bwd.length ≠ ents.length then .error "entry-from-a-switch-to-itself"
+  else if bwd.any fun e => (fwd.filter fun r => r.1 = e.2.1 && r.2.1 = e.1).length ≠ 1 then .error "no-unique-reverse-entry"
+  else fwd.mapM fun e =>
+    match bwd.filter fun r => r.1 = e.2.1 && r.2.1 = e.1 with
+    | [r] => .ok ⟨e.1, e.2.2, e.2.1, r.2.2⟩
+    | _ => .error "no-unique-reverse-entry"
+
+/-- NO_FLOOD bits on the switches after the port_mods `mods`, from `b` -/
+def applyBits (b : Prev) (mods : List PortMod) : Prev := mods.foldl (fun b m => b.set (m.sw, m.port) m.flood) b
+
+/-- a port that has not been sent a port_mod on its connection floods -/
+def floods (b : Prev) (k : Nat × Nat) : Bool := (b.get k).getD true
+
+/-- the tree a flood state amounts to: the links known in both directions whose two ends both flood (each cable once) -/
+def floodTree (adj : List Link) (b : Prev) : List TEdge :=
+  (adj.filter fun l => decide (l.dpid1 < l.dpid2) && decide (l.flip ∈ adj) && floods b (l.dpid1, l.port1) && floods b (l.dpid2, l.port2)).map
+    fun l => ⟨l.dpid1, l.port1, l.dpid2, l.port2⟩
+
+end Spec
 
 end Pox.STree
